@@ -42,7 +42,7 @@ VALUES = [None, True, 1, 1.0, "1", [], {}, [1], [True], {"a": 1}, {"a": True}, "
 
 
 def plan(tier, seed):
-    specs = [{"kind": "flags"}, {"kind": "test-equality"}] + [{"kind": "single", "doc": i, "ops": ops} for i in range(len(DOCS)) for ops in (["add", "replace", "test", "remove"], ["move"], ["copy"])]
+    specs = [{"kind": "flags"}, {"kind": "test-equality"}, {"kind": "scale"}] + [{"kind": "single", "doc": i, "ops": ops} for i in range(len(DOCS)) for ops in (["add", "replace", "test", "remove"], ["move"], ["copy"])]
     for _ in range(6 if tier == "quick" else 20):
         specs.append({"kind": "sequences", "n": 2500 if tier == "quick" else 60000})
     return specs
@@ -199,6 +199,20 @@ def run(spec, ctx):
         from rt import flag_history
 
         flag_history.run(ctx)
+        return
+    if spec["kind"] == "scale":
+        # operations far into long arrays and wide objects: multi-digit indices, index == length, sizes around powers of two
+        n_ops = 0
+        for n in (9, 10, 11, 100, 101, 1000, 4097, 16384, 16385, 65537):
+            doc = {"a": list(range(n)), "o": {str(i): i for i in range(min(n, 3000))}, "b": []}
+            for ops in ([{"op": "add", "path": "/a/%d" % n, "value": "end"}], [{"op": "add", "path": "/a/%d" % (n + 1), "value": "beyond"}], [{"op": "add", "path": "/a/%d" % (n - 1), "value": "before-last"}], [{"op": "remove", "path": "/a/%d" % (n - 1)}],
+                        [{"op": "remove", "path": "/a/%d" % n}], [{"op": "replace", "path": "/a/%d" % (n // 2), "value": [n]}], [{"op": "move", "from": "/a/%d" % (n - 1), "path": "/a/0"}], [{"op": "move", "from": "/a/0", "path": "/a/%d" % (n - 1)}],
+                        [{"op": "move", "from": "/a/0", "path": "/a/%d" % n}], [{"op": "copy", "from": "/a/%d" % (n - 1), "path": "/a/-"}, {"op": "test", "path": "/a/%d" % n, "value": n - 1}], [{"op": "copy", "from": "/a", "path": "/b/0"}, {"op": "remove", "path": "/b/0/%d" % (n - 1)}, {"op": "test", "path": "/a/%d" % (n - 1), "value": n - 1}],
+                        [{"op": "test", "path": "/o/%d" % (min(n, 3000) - 1), "value": min(n, 3000) - 1}, {"op": "add", "path": "/o/%d" % n, "value": "new"}], [{"op": "remove", "path": "/o/10"}, {"op": "add", "path": "/o/10", "value": "back"}] if n > 10 else [{"op": "add", "path": "/o/10", "value": "new"}]):
+                check(ctx, doc, ops, "scale")
+                n_ops += 1
+            ctx.cell("scale", "length=%d" % n)
+        ctx.bulk(n_ops)
         return
     if spec["kind"] == "test-equality":
         # `test` on pairs of numbers that are close but different, or equal across int/float; bare and nested; then a guarded replace
